@@ -258,6 +258,14 @@ type naming struct {
 	maybe    bool     // a definition of a refused document is involved
 }
 
+// readings is the number of consistent readings of the dictionary for the command.
+func (n naming) readings() int {
+	if n.mayUnres {
+		return len(n.names) + 1
+	}
+	return len(n.names)
+}
+
 func (m *dictModel) naming(app, code uint32, req bool) naming {
 	n := naming{dirOK: true}
 	set := map[string]bool{}
@@ -427,8 +435,8 @@ func runDictLoads(c LCase) *ev.Failure {
 						}
 					}
 				}
-				if nm.maybe {
-					sig += ":refused-document-involved"
+				if nm.readings() > 1 {
+					sig += ":under-every-reading-of-a-refused-document"
 				}
 				what := "no handler ran"
 				if got >= 0 {
@@ -752,8 +760,10 @@ func classifyDictLoads(c LCase) (bool, []string) {
 			switch {
 			case len(nm.names) == 0:
 				add("dispatch:unnamed-command")
+			case nm.readings() > 1:
+				add("dispatch:several-readings-of-a-refused-document")
 			case nm.maybe:
-				add("dispatch:refused-document-involved")
+				add("dispatch:decided-although-a-refused-document-names-the-key")
 			default:
 				add("dispatch:decided")
 			}
@@ -771,7 +781,7 @@ var dictLoadsProp = ev.Register(&ev.Prop[LCase]{
 	Gen:  genDictLoads, Run: runDictLoads, Classify: classifyDictLoads,
 })
 
-func TestC09DictionaryHistory(t *testing.T) { dictLoadsProp.Check(t, 1500, 60000) }
+func TestC09DictionaryHistory(t *testing.T) { dictLoadsProp.Check(t, 1200, 40000) }
 
 // The same extension loaded twice (what two packages of one program that both load "their"
 // dictionary do), for every embedded extension document of the library over its base document and
